@@ -8,11 +8,13 @@
    label is compared as ONE label against a NumPy-array span, so no label is excluded any more: C10_arr_tuple_label_absent), and for
    pandas spans relative to get_loc (an oracle, or the index models of LocateIndex.v which the correspondence check compares with
    pandas on every recorded answer — a sampled tie, not a proof about pandas).
-   Documented exclusions (the property's text fixes no behaviour there; the model mirrors the code, K compares, the direct oracle
-   is silent): spans with REPEATED labels — list / tuple / range spans answer the first occurrence (C10_locate_list_index needs no
+   Kept findings and documented exclusions (the model mirrors the code, K compares): a NumPy datetime64[ns] array span (span_ok
+   asks obj_stable: C10_arr_datetime64ns_present_label_refuted; a float array span with a NaN label is the same defect, oracle-only);
+   spans with REPEATED labels — list / tuple / range spans answer the first occurrence (C10_locate_list_index needs no
    NoDup; C10_slice_get_closed_stop_any_span), a NumPy-array span answers KeyError for a repeated label although it is present
-   (C10_locate_fallback_not_unique), an open stop resolves to the first occurrence of the last label
-   (C10_dup_span_open_slice_refuted); a label None (Python reads it as an open slice bound); negative / zero steps
+   (C10_locate_fallback_not_unique: KEPT FINDING), an open stop resolves to the first occurrence of the last label
+   (C10_dup_span_open_slice_refuted: KEPT FINDING; the oracle speaks on open-ended slices and on the unique labels of such spans;
+   a CLOSED bound on a repeated label stays excluded: the position of a label that occurs twice is not defined by the text); a label None (Python reads it as an open slice bound); negative / zero steps
    (C10_negative_step_get, C10_zero_step_rejected).
    Only K / oracle, no theorem: the element type is abstract and the model does not cast — that NumPy's cast of a written value
    (2.5 into an int series, 'abc' into <U2) is read back identically through every path is checked by the direct oracle on typed
@@ -45,9 +47,10 @@ Theorem C10_locate_range_index (g : list label -> label -> outcome loc) (a s : Z
 Proof. exact (locate_range_spec g a s n). Qed.
 Print Assumptions C10_locate_range_index.
 
-(* the fallback (NumPy arrays): duplicate-free span, ANY label (also a tuple: one label since fix 35fe7e2); a built-in int *)
+(* the fallback (NumPy arrays): duplicate-free span whose elements the object cast leaves alone (obj_stable: everything but the
+   elements of a datetime64[ns] array — the kept finding below), ANY label (also a tuple: one label since fix 35fe7e2); a built-in int *)
 Theorem C10_locate_fallback (g : list label -> label -> outcome loc) (ls : list label) (x : label) :
-  NoDup ls ->
+  NoDup ls -> obj_stable ls ->
   match pos x ls with
   | Some p => locate g (SArr ls) x = Ret (LPos (Z.of_nat p) true)
   | None => locate g (SArr ls) x = Raise KeyError
@@ -55,9 +58,10 @@ Theorem C10_locate_fallback (g : list label -> label -> outcome loc) (ls : list 
 Proof. exact (locate_arr_spec g ls x). Qed.
 Print Assumptions C10_locate_fallback.
 
-(* ... and with duplicates (or no occurrence) the NotImplementedError / KeyError inside it surfaces as KeyError *)
+(* ... and with duplicates (or no occurrence) the NotImplementedError / KeyError inside it surfaces as KeyError — for a label that
+   occurs TWICE this is the kept finding `ndarray span|repeated-label-KeyError`: KeyError although the label is in the span *)
 Theorem C10_locate_fallback_not_unique (g : list label -> label -> outcome loc) (ls : list label) (x : label) :
-  cnt x ls <> 1%nat -> locate g (SArr ls) x = Raise KeyError.
+  obj_stable ls -> cnt x ls <> 1%nat -> locate g (SArr ls) x = Raise KeyError.
 Proof. exact (locate_arr_not_unique g ls x). Qed.
 Print Assumptions C10_locate_fallback_not_unique.
 
@@ -74,6 +78,13 @@ Theorem C10_locate_meets_spec (g : list label -> label -> outcome loc) (sp : spa
   span_ok g sp -> locate_spec (span_labels sp) (locate g sp).
 Proof. exact (locate_meets_spec g sp). Qed.
 Print Assumptions C10_locate_meets_spec.
+
+(* KEPT FINDING `ndarray span (datetime64[ns])|present-label-KeyError`: the guard obj_stable of span_ok is needed — a NumPy datetime64[ns]
+   array span answers KeyError for its OWN labels (the object cast of the span holds the nanoseconds as Python ints) *)
+Theorem C10_arr_datetime64ns_present_label_refuted :
+  exists ls x, NoDup ls /\ In x ls /\ forall g, locate g (SArr ls) x = Raise KeyError.
+Proof. exact arr_datetime64ns_present_label_refuted. Qed.
+Print Assumptions C10_arr_datetime64ns_present_label_refuted.
 
 (* formerly refuted (finding: a tuple label was broadcast against a NumPy-array span and aliased a period); since fix 35fe7e2 a tuple
    label that is no element of the span is simply absent, on spans of every length *)
@@ -179,7 +190,8 @@ Theorem C10_assign_seq_effect (V : Type) (st : cstate V) (sr : series V) :
 Proof. exact (@assign_seq_effect V st sr). Qed.
 Print Assumptions C10_assign_seq_effect.
 
-(* the guard NoDup is needed for open ends: with a repeated last label `[:]` stops at its first occurrence *)
+(* KEPT FINDING `open-slice|repeated-label-span`: the guard NoDup is needed for open ends — "open ends meaning the ends of the span"
+   fails when the last label occurs earlier: `[:]` stops at its first occurrence *)
 Theorem C10_dup_span_open_slice_refuted :
   exists sp, get_item no_pandas (ex_state sp) "X" (KSlice None None None) <> Ret (RArr [10; 11; 12; 13; 14]).
 Proof. exact dup_span_open_slice_refuted. Qed.
